@@ -131,6 +131,8 @@ def check_exact_lifts(ix, rep):
                 ok = 'lift of %s(...)' % args[0].func.id
             elif len(args) == 1 and isinstance(args[0], ast.Constant) and isinstance(args[0].value, (int, str)):
                 ok = 'literal'
+            elif len(args) == 1 and _is_unit_entry(args[0]):
+                ok = 'a unit-table entry (a power of ten: `.limit_denominator()` gives it back exactly)'
             elif len(args) == 1 and isinstance(args[0], ast.BinOp) and isinstance(args[0].op, ast.Mult) and (_is_unit_entry(args[0].left) or _is_unit_entry(args[0].right)):
                 ok = 'scaled to the base unit before the lift'
             elif len(args) == 1 and isinstance(args[0], ast.Name) and fn is not None and any(
@@ -258,6 +260,7 @@ def check_decimal_of_number(ix, rep):
 
 def check(ix, rep):
     from sa.rules import round11 as _r11
+    rep.floor('unit ratios of the dense-time conversion', _r11.check_dense_conversion_exact(ix, rep), 1)
     rep.floor('setters of the default unit', _r11.check_default_unit_domain(ix, rep), 1)
     rep.floor('functions of the monitors scanned for rounded bounds', _r11.check_no_rounding(ix, rep), 50)
     # 1-3. the two transformers
